@@ -41,6 +41,15 @@ Theorem C07_invariant_any_input : forall fuel ls ps, all_fuel fuel ls = Some ps 
 Proof. exact C07_invariant. Qed.
 Print Assumptions C07_invariant_any_input.
 
+(* the reader the tie executes trims Unicode whitespace exactly as Go does (R2u); on text without the UTF-8
+   encoding of a non-ASCII Unicode space it is the reader of the theorems above *)
+Require R2u.
+Theorem C07_exact_reader_agrees : forall x, Forall R2u.uclean (lines_of x) -> R2u.read_all_u x = read_all x.
+Proof. exact R2u.read_all_u_clean. Qed.
+Theorem C07_exact_next_agrees : forall ls p last, Forall R2u.uclean ls -> R2u.next_u p last ls = next p last ls.
+Proof. exact R2u.next_u_clean. Qed.
+Print Assumptions C07_exact_reader_agrees.
+
 (* non-vacuity: a CRLF document with a comment, a blank-only line, a folded field *)
 Require R6ex.
 Example C07_instance : Forall lpara_ok R6ex.d1 /\ Forall skip_ok [s "#end"] /\ Forall (free nl) (doc_lines R6ex.d1 [s "#end"]) /\
